@@ -15,7 +15,7 @@ from inscripta.biocantor.io.features import extract_feature_name_id, extract_fea
 from inscripta.biocantor.io.genbank.constants import GenBankParserType
 from inscripta.biocantor.io.genbank.parser import parse_genbank
 
-from checks.c12 import strat_genbank, export as gb_export
+from checks.c12 import _one_record as gb_one_record, export as gb_export
 
 # documented priority lists (io/features/__init__.py docstrings), typed here
 NAME_RANK = {"feature_name": 0, "standard_name": 10, "name": 15, "gene": 20, "gene_name": 30, "label": 40, "operon": 50}
@@ -268,7 +268,7 @@ def check_genbank_permutations(spec, ctx):
 
 @st.composite
 def strat_gb_perm(draw, tier="quick"):
-    sp = draw(strat_genbank(tier))
+    sp = draw(gb_one_record("", isoforms=False))   # one record, one gene model per gene (what the LOCUS_TAG grouping is specified for)
     # locus-tag-complete: every gene carries its own locus tag
     for i, g in enumerate(sp["obj"]["genes"]):
         g["locus_tag"] = "LT_%03d" % i
